@@ -384,6 +384,14 @@ pub fn pair_actions(n: &Node, alpha: &[(String, Transaction, bool)]) -> Vec<Acti
             if let Some(b) = b {
                 v.push(Action::Batch { label: format!("[{} , chain]", la), txs: vec![a.clone(), b.clone()], expect_ok: true });
                 v.push(Action::Batch { label: format!("[chain , {}]", la), txs: vec![b.clone(), a.clone()], expect_ok: true });
+                // the coin created inside the batch is spent twice: by two different transactions, and twice by one
+                if o0.denom == Denom::Mel {
+                    let b2 = tx_t(TxKind::Normal, vec![id], vec![out_t(o0.value.0, Denom::Mel)], 0, vec![0xc6]);
+                    v.push(Action::Batch { label: format!("[{} , chain , chain']", la), txs: vec![a.clone(), b.clone(), b2.clone()], expect_ok: false });
+                    v.push(Action::Batch { label: format!("[chain' , {} , chain]", la), txs: vec![b2, a.clone(), b.clone()], expect_ok: false });
+                    let d = tx_t(TxKind::Normal, vec![id, id], vec![out_t(o0.value.0, Denom::Mel), out_t(o0.value.0, Denom::Mel)], 0, vec![0xc7]);
+                    v.push(Action::Batch { label: format!("[{} , dbl-of-its-output]", la), txs: vec![a.clone(), d], expect_ok: false });
+                }
                 // three-step chain in the worst order
                 if o0.denom == Denom::Mel {
                     let c = tx_t(TxKind::Normal, vec![b.output_coinid(0)], vec![out_t(o0.value.0, Denom::Mel)], 0, vec![0xc5]);
